@@ -1,0 +1,15 @@
+//go:build verif
+
+package nfs
+
+import (
+	"github.com/mit-pdos/go-nfsd/fstxn"
+	"github.com/mit-pdos/go-nfsd/shrinker"
+)
+
+// VerifFsState exposes the file-system state (allocators, caches, super) to
+// the verification harness.
+func (nfs *Nfs) VerifFsState() *fstxn.FsState { return nfs.fsstate }
+
+// VerifShrinker exposes the shrinker state.
+func (nfs *Nfs) VerifShrinker() *shrinker.ShrinkerSt { return nfs.shrinkst }
